@@ -446,6 +446,16 @@ def aggregate_records(ctx) -> None:
             other = True
         if raise_class(fv, r)[0] == "ValueError" and isinstance(rt, ast.UnaryOp) and isinstance(rt.operand, ast.Call) and call_fname(rt.operand) == "isinstance" and pol and is_name(rt.operand.args[1], "Tip"):
             other = True
+    if not other:
+        # the same rejection spelled with early returns: a ValueError raised where the tip is known to be neither a Tip nor an Iterable
+        for n, test, pol, r in fv.raising_guards():
+            if raise_class(fv, r)[0] != "ValueError":
+                continue
+            facts = [(a_, p_) for a_, p_, _b in fv.atoms_at(fv.node_of(r))]
+            def neg_inst(cls_name):
+                return any(isinstance(a_, ast.Call) and call_fname(a_) == "isinstance" and not p_ and len(a_.args) == 2 and cls_name in show(a_.args[1]) for a_, p_ in facts)
+            if neg_inst("Tip") and neg_inst("Iterable") and lp.id not in fv.cfg.enclosing_loops(fv.node_of(r)):
+                other = True
     ctx.rep.check(other, "C10.type-guard", f"{f.qualname}/scalar-type", "any other tip value raises ValueError", "a tip that is neither int, Tip nor a collection is not rejected", where=f.where())
 
 
@@ -724,6 +734,8 @@ def slots(ctx) -> None:
             for n in v.cfg.nodes:
                 if n.kind == "for":
                     it, _at = v.def_expr(n.ast.iter, n.id)
+                    if isinstance(it, ast.Name):
+                        it = v.res.resolve(it, _at)  # a module-level constant tuple of the slot values
                     if isinstance(it, (ast.List, ast.Tuple)) and it.elts and all(isinstance(e, ast.Constant) for e in it.elts):
                         found.append((v, n, it))
         if len(found) != 1:
@@ -734,7 +746,8 @@ def slots(ctx) -> None:
         vals = [e.value for e in slot_list.elts]
         ctx.rep.check(vals == want, rule, f"{f.qualname}/slot-list", "slot list = ascending Tip values 1..128", f"slot list is {vals}; the i-th volume slot belongs to tip i, so it must be the ascending Tip values {want}", where=f.where(lp.ast))
         body = fv.cfg.loop_body[lp.id]
-        augs = [n for n in (fv.cfg.nodes[i] for i in body) if n.kind == "stmt" and isinstance(n.ast, ast.AugAssign) and isinstance(n.ast.op, ast.Add)]
+        augs = [n for n in (fv.cfg.nodes[i] for i in body) if n.kind == "stmt" and isinstance(n.ast, ast.AugAssign) and isinstance(n.ast.op, ast.Add)
+                and (isinstance(n.ast.value, ast.JoinedStr) or (isinstance(n.ast.value, ast.Constant) and isinstance(n.ast.value.value, str)))]
         tests = [n for n in (fv.cfg.nodes[i] for i in body) if n.kind == "test"]
         ok = len(augs) == 2 and len(tests) == 1 and len({show(a.ast.target) for a in augs}) == 1 and not fv.cfg.loop_has_break.get(lp.id)
         if ok:
